@@ -284,3 +284,22 @@ CHECKS["C17"] = dict(
                "TypedDict fields are listed alphabetically, so list layouts differ from every other kind.",
     design_ref="DESIGN.md 8.8",
 )
+
+NA.discard("C16")
+CHECKS["C16"] = dict(
+    category="translation_validation",
+    technique="translation validation of generic resolution on compiler output (tier G): per parametrisation of enumerated "
+              "generic dataclass hierarchies the function bound as loader/dumper of each field (with the callables it closes "
+              "over) is read from the emitted namespace and compared with the scalar leaves of the annotation an independent "
+              "resolver substitutes through the hierarchy",
+    text="Decides, for the enumerated hierarchies (containers, two parameters, re-ordered parameters, partial binding, "
+         "non-generic child of a parametrised base, three levels, shadowing annotation, renamed variable, bound / constrained "
+         "/ plain TypeVars used bare, two generic bases) and 35 parametrisations, that the type used to load and to dump each "
+         "field is the annotation with every type variable replaced by the bound argument or the documented implicit "
+         "parameter: every pool type has its own strict loader function, so the bound function identifies the type. Universal "
+         "over data (nothing emitted is called); bounded over hierarchies.",
+    level_note="Trusted: Python ast; the resolver oracle (_g_resolve in sa/genprog.py) written from the property statement; "
+               "distinct pool types have distinct loader functions. Dataclass only (other kinds: C17); TypeVarTuple not "
+               "enumerated.",
+    design_ref="DESIGN.md 8.9",
+)
